@@ -647,7 +647,10 @@ let check_writer_pass opidx impl_all srv putfail =
               spec opidx "C12_reset_discards_probe" (not (still sl)) (Printf.sprintf "server %d id %d" srv sl.i_id)
             else begin
               let q = List.find_opt (fun q -> q.i_id = sl.i_id && q.i_h = sl.i_h) post in
-              spec opidx "C12_reset_resends" (List.mem sl.i_id txids && (match q with Some q -> q.i_tries = max sl.i_tries 1 | None -> false))
+              (* the resend itself consumes no retry; when the clock moves during the release (tick mode) the request may
+                 become due again and be sent once more in the same release: each such further transmission counts *)
+              let ntx = List.length (List.filter (fun i -> i = sl.i_id) txids) in
+              spec opidx "C12_reset_resends" (ntx >= 1 && (match q with Some q -> q.i_tries = max sl.i_tries 1 + (ntx - 1) | None -> false))
                 (Printf.sprintf "server %d id %d tries before %d after %s, retransmitted=%b" srv sl.i_id sl.i_tries
                    (match q with Some q -> string_of_int q.i_tries | None -> "released") (List.mem sl.i_id txids))
             end) pre
